@@ -427,6 +427,16 @@ def ops_cases(draw):
     for _ in range(ncopy):
         src = G.pick(draw, a["rxns"])
         cp = {s: dict(src[s]) for s in G.SIDES}
+        near = draw(G.ints(0, 5))           # 0-2 exact copy of the stoichiometry; 3-5 near copy: one part differs
+        if near >= 3:
+            side = {3: "inact_prod", 4: "inact_reac"}.get(near) or G.pick(draw, list(G.SIDES))
+            if cp[side] and draw(G.ints(0, 1)):
+                del cp[side][sorted(cp[side])[0]]
+            else:
+                k0 = G.pick(draw, sorted(a["subs"]))
+                cp[side][k0] = cp[side].get(k0, 0) + 1
+            if not G.has_effect(cp):
+                cp["prod"][a["subs"][0]] = cp["prod"].get(a["subs"][0], 0) + 1
         cp.update(eq=False, ktype="plain", k=src["k"] if draw(G.ints(0, 1)) else draw(G.k_values("exact", 0)))
         b["rxns"].insert(draw(G.ints(0, len(b["rxns"]))), cp)
         for k in G.rxn_keys(cp):
